@@ -1274,6 +1274,16 @@ PPL::Grid::add_constraints(const Constraint_System& cs) {
   if (space_dim < cs.space_dimension()) {
     throw_dimension_incompatible("add_constraints(cs)", "cs", cs);
   }
+  // Check all the constraints before adding any of them, so that
+  // `*this' is left unchanged if an exception has to be thrown:
+  // only equalities and trivial inequalities are allowed.
+  for (Constraint_System::const_iterator i = cs.begin(),
+         cs_end = cs.end(); i != cs_end; ++i) {
+    if (i->is_inequality() && !i->is_inconsistent()
+        && !i->is_tautological()) {
+      throw_invalid_constraints("add_constraints(cs)", "cs");
+    }
+  }
   if (marked_empty()) {
     return;
   }
